@@ -5,6 +5,7 @@ package seqhash
 // C12: circular sequences rotate to their lexicographically least rotation.
 //
 // verif:bound C12 all 256 byte values: length 0..6 (quick) / 0..7 (thorough); alphabet {A,B}: length <= 10 / 13; {A,B,C}: <= 8 / 9; ACGT: <= 7 / 8
+// verif:bound C12 long-string clause: lengths 32767 and 65536 (quick) / 4097..100003 (thorough): a C/G/T body with a single A at 4 positions and two symbolic letters; expected result: the rotation starting at the A
 // verif:bound C12 all-rotations-agree clause: length <= 5 (quick) / 6 (thorough) over all byte values
 // verif:bound C12 outside the claim: strings longer than the stated lengths (the property's quantifier goes to 10^6)
 
@@ -55,6 +56,36 @@ func Harness_C12_RotationsAgree() {
 	vCover("C12 rotated input", k > 0)
 }
 
+// long circular strings: a body of C/G/T letters with exactly one A, whose position is the least rotation
+func Harness_C12_Long() {
+	sizes := []int{32767, 65536}
+	if vTier(0, 1) == 1 {
+		sizes = []int{4097, 32767, 32768, 32769, 65535, 65536, 65537, 100003}
+	}
+	n := sizes[vChoice(len(sizes))]
+	k := []int{0, 1, n / 3, n - 1}[vChoice(4)]
+	body := make([]byte, n)
+	for i := range body {
+		body[i] = "CGTGTC"[i%6]
+	}
+	body[k] = 'A'
+	s := string(body)
+	// three symbolic letters next to the A and far from it (never an A themselves)
+	p1, p2 := (k+1)%n, (k+n/2)%n
+	b := []byte(s)
+	x := vBytes(2, "CGT")
+	s = string(b[:p1]) + x[:1] + string(b[p1+1:])
+	b2 := []byte(s)
+	_ = b2
+	if p2 != k && p2 != p1 {
+		s = s[:p2] + x[1:] + s[p2+1:]
+	}
+	r := RotateSequence(s)
+	vAssert(len(r) == n, "length-preserved")
+	vAssert(vEqStr(r, s[k:]+s[:k]), "least-rotation")
+	j := n / 7
+	vAssert(vEqStr(RotateSequence(s[j:]+s[:j]), r), "rotations-agree")
+}
 func Selftest_C12_Vectors() {
 	for _, s := range []string{"", "A", "TTAGCCCAT", "AAAAAAAAAAA", "ABAB", "BA", "ZYX", "CGATCGATAA", "baab", "\xff\x00\x80"} {
 		vOut(RotateSequence(s))
